@@ -17,6 +17,7 @@ import LinVerif.Lemmas.C20IterMachine
 import LinVerif.Lemmas.C20SeekMachine
 import LinVerif.Lemmas.C20Reuse
 import LinVerif.Lemmas.C20PrevMachine
+import LinVerif.Lemmas.C20Walk
 import LinVerif.Model.Louds
 import LinVerif.Model.TrieBucket
 import LinVerif.Generated.C20
@@ -633,6 +634,67 @@ theorem seekToLast_is_max {kvs : List KV} {t : Node} (h : Buildable kvs) (ht : b
   have := seekToLast_last hwf
   rw [hit] at this
   exact this
+
+/-- **cursor walks**: ANY script of `Next` / `Prev` calls on the stack machine over the vectors,
+started by `SeekToFirst` or by `SeekToLast`, observes (`Valid`, `Key`, `Value` after every call) exactly
+what an index cursor on the sorted pairs observes: `Next` = index + 1 (invalid past the last pair), `Prev` =
+index - 1 (invalid before the first), an invalid iterator stays invalid. Not only the two full sweeps. -/
+theorem louds_walk_refines_cursor {kvs : List KV} {t : Node} (h : Buildable kvs) (ht : build kvs = some t)
+    (ms : List LoudsIter.Mv) :
+    LoudsIter.walk (encode t) (LoudsIter.seekToFirst (encode t)) ms = LoudsIter.cursorWalk kvs (some 0) ms ∧
+    LoudsIter.walk (encode t) (LoudsIter.seekToLast (encode t)) ms =
+      LoudsIter.cursorWalk kvs (some (kvs.length - 1)) ms := by
+  obtain ⟨t', ht', hit, hwf, _⟩ := build_spec h
+  rw [ht] at ht'; cases ht'
+  have h1 := walk_spec hwf ms _ _ (at_first hwf)
+  have h2 := walk_spec hwf ms _ _ (at_last hwf)
+  rw [hit] at h1 h2
+  exact ⟨h1, h2⟩
+
+/-- … and started by `Seek(k)` (both source variants): the walk is that of the cursor standing where the
+forward enumeration from the landing position begins (`kvs.drop i`; with today's `Seek` that is the lower
+bound of `k`, `louds_seek_eq_lowerBound`), or of the invalid cursor when `Seek` ran past the end -/
+theorem louds_walk_from_seek {kvs : List KV} {t : Node} (step : Bool) (h : Buildable kvs)
+    (ht : build kvs = some t) (k : Key) (ms : List LoudsIter.Mv) :
+    ∃ c, LoudsIter.walk (encode t) (LoudsIter.seek step (encode t) k).1 ms = LoudsIter.cursorWalk kvs c ms ∧
+      (LoudsIter.seekAll step (encode t) k).2 = LoudsIter.cursorRest kvs c := by
+  obtain ⟨t', ht', hit, hwf, _⟩ := build_spec h
+  rw [ht] at ht'; cases ht'
+  obtain ⟨c, hc⟩ := at_seek hwf step k
+  refine ⟨c, ?_, ?_⟩
+  · rw [walk_spec hwf ms _ _ hc, hit]
+  · have := at_collect hwf hc
+    rw [hit] at this
+    exact this
+
+/-- **`Prev` undoes `Next` and `Next` undoes `Prev`**: after any script that leaves the iterator on the
+i-th pair, `Next(); Prev()` (when a next pair exists) resp. `Prev(); Next()` (when a previous pair exists)
+shows the neighbour and then the i-th pair again -/
+theorem next_prev_identity {kvs : List KV} {t : Node} (h : Buildable kvs) (ht : build kvs = some t)
+    (ms : List LoudsIter.Mv) (i : Nat) (hi : cursorAfter kvs.length (some 0) ms = some i) :
+    (i + 1 < kvs.length →
+      LoudsIter.walk (encode t) (LoudsIter.seekToFirst (encode t)) (ms ++ [.next, .prev]) =
+        LoudsIter.walk (encode t) (LoudsIter.seekToFirst (encode t)) ms ++ [kvs[i + 1]?, kvs[i]?]) ∧
+    (0 < i →
+      LoudsIter.walk (encode t) (LoudsIter.seekToFirst (encode t)) (ms ++ [.prev, .next]) =
+        LoudsIter.walk (encode t) (LoudsIter.seekToFirst (encode t)) ms ++ [kvs[i - 1]?, kvs[i]?]) := by
+  have hw := fun ms => (louds_walk_refines_cursor h ht ms).1
+  constructor
+  · intro hlt
+    rw [hw, hw, cursorWalk_append, hi]
+    simp [LoudsIter.cursorWalk, LoudsIter.cursorMove, LoudsIter.cursorObs, hlt]
+  · intro hpos
+    have hne : i ≠ 0 := by omega
+    have hlt : i - 1 + 1 < kvs.length ∨ True := Or.inr trivial
+    have hi' : i - 1 + 1 = i := by omega
+    rw [hw, hw, cursorWalk_append, hi]
+    have hil : i < kvs.length ∨ kvs.length ≤ i := by omega
+    simp only [LoudsIter.cursorWalk, LoudsIter.cursorMove, LoudsIter.cursorObs, hne, if_false, hi']
+    rcases hil with hil | hil
+    · simp [hil]
+    · -- a cursor never stands beyond the last pair
+      exfalso
+      exact cursorAfter_lt kvs.length ms 0 i (List.length_pos_iff.2 h.nonempty) hi hil
 
 /-- the encoded label / hasChild / louds / value vectors are the per-node rows concatenated in
 level order (what `trie.Init` / `bitVector.Init` do with the builder's levels) -/
